@@ -69,6 +69,8 @@ class C15(Plugin):
                     elif all(p not in [r[0], *r[2]] for r in rs):
                         rs[0][0] = p
                 recs = Some(rs)
+            elif rng.random() < 0.08:
+                recs = Some([])      # an empty converter as validation context: every prefix is unknown to it
             yield [p, i, name, [p2, i2], [p3, i3], sep, s, recs]
 
     def observe(self, case):
